@@ -69,7 +69,7 @@ func (e diskEngine) Plan(tier string) []Phase {
 	switch e.prop {
 	case "C14":
 		if tier == "thorough" {
-			// the whole token alphabet up to length 5 (19 607 parameters), then the seeded search
+			// the whole token alphabet (9 tokens incl. a control character and an invalid UTF-8 byte) up to length 5 (66 429 parameters), then the seeded search
 			return []Phase{{Mode: "alphabet", Count: alphabetCount(5)}, {Mode: "random", Share: 1}}
 		}
 		return []Phase{{Mode: "alphabet", Count: alphabetCount(3)}, {Mode: "random", Share: 1}}
@@ -204,7 +204,7 @@ func genFaults(r *Rand, p *Project, light bool) []Fault {
 // The C14 parameter alphabet: every string over these tokens up to a length bound is tried
 // as the parameter of one INCLUDE (bare and quoted), in a fixed layout that has files and
 // directories behind every token combination that is legal, and decoys outside the project.
-var alphaTokens = []string{"a", ".", "/", "\\", "..", "d", "b.jst"}
+var alphaTokens = []string{"a", ".", "/", "\\", "..", "d", "b.jst", "\x01", "\xff"}
 
 func alphabetCount(maxLen int) int {
 	n, p := 0, 1
@@ -233,7 +233,7 @@ func alphabetParam(index int) string {
 func (e diskEngine) genAlphabet(job *Job, c *Case) *Case {
 	prm := alphabetParam(job.Index)
 	line := "INCLUDE " + prm
-	if strings.ContainsAny(prm, "\\") || job.Index%3 == 0 {
+	if strings.ContainsAny(prm, "\\") || (job.Index%3 == 0 && !strings.ContainsAny(prm, "\x01")) {
 		// quoted form: backslashes must be escaped inside quotes
 		line = "INCLUDE \"" + strings.ReplaceAll(prm, "\\", "\\\\") + "\""
 	}
@@ -283,7 +283,11 @@ func (e diskEngine) Gen(job *Job) *Case {
 		c.Project = genLight(r.Fork(), mode)
 		light = true
 	case k < w[0]+w[1]+w[2]:
-		c.Project = genSpecial(r.Fork(), specialKinds[r.Intn(len(specialKinds))])
+		if r.Chance(1, 3) {
+			c.Project = genMacroGraph(r.Fork())
+		} else {
+			c.Project = genSpecial(r.Fork(), specialKinds[r.Intn(len(specialKinds))])
+		}
 	default:
 		if p := corpusProject(r.Intn(1 << 20)); p != nil && len(p.Files) > 0 {
 			c.Project = p
@@ -464,7 +468,7 @@ func (e diskEngine) Exec(c *Case, job *Job) *Result {
 			garbage = true
 		}
 	}
-	modelAsserted := (strings.HasPrefix(c.Project.Kind, "light") || c.Project.Kind == "generated-valid" || strings.HasPrefix(c.Project.Kind, "special")) && !garbage
+	modelAsserted := (strings.HasPrefix(c.Project.Kind, "light") || c.Project.Kind == "generated-valid" || c.Project.Kind == "macro-graph" || strings.HasPrefix(c.Project.Kind, "special")) && !garbage
 	for _, f := range c.Faults {
 		if f.Kind == "flip" || f.Kind == "setbyte" || f.Kind == "lost-zero" || f.Kind == "filler-tail" {
 			if !strings.HasPrefix(c.Project.Kind, "light") {
@@ -495,7 +499,7 @@ func (e diskEngine) Exec(c *Case, job *Job) *Result {
 	// ---------- distinctness / non-triviality ----------
 	switch e.prop {
 	case "C01":
-		res.NonTrivial = nfired > 0 || strings.HasPrefix(c.Project.Kind, "special") || c.Project.Kind == "light-hostile" || c.Project.Kind == "light-cycle"
+		res.NonTrivial = nfired > 0 || strings.HasPrefix(c.Project.Kind, "special") || c.Project.Kind == "macro-graph" || c.Project.Kind == "light-hostile" || c.Project.Kind == "light-cycle"
 		res.Key = fmt.Sprintf("%s|%s|%016x|%s", c.Project.Kind, strings.Join(firedKinds, ","), fnv64(shapeStr), o.Class())
 	case "C14":
 		res.NonTrivial = mr.includes > 0
